@@ -1,4 +1,5 @@
 import MoneroModel.Model.Block
+import MoneroModel.Model.Extra
 /-! Model of the byte counts that the Rust encoders *report* (`consensus_encode` returns `Ok(len)`; each impl sums the
 lengths its parts report: `len += x.consensus_encode(w)?`). Written separately from the encoders, as in the Rust, so
 that "reported length = bytes written" is a theorem (`C02_len_*`), not a definition. -/
@@ -44,6 +45,27 @@ def lenTx (t : Tx) : Nat :=
      | some b => lenBase b + (match t.prun with | none => 0 | some p => lenPrunable p b.ty))
 /-- `String`: `vi_len + b.len()` (byte length) -/
 def lenString (s : Bytes) : Nat := lenVarint s.length + s.length
-def lenHeader (h : Header) : Nat := lenVarint h.major + lenVarint h.minor + lenVarint h.timestamp + lenBytes h.prev + 4
+/-- `impl_int_encodable!` (encode.rs): `Ok(mem::size_of::<$ty>())` — the reported length of a fixed-width integer of k bytes
+is k whatever the value; written separately from `encUintLE` / `encIntLE` (which produce the bytes) -/
+def lenUint (k : Nat) : Nat := k
+/-- `bool::consensus_encode`: `w.emit_bool(*self)?; Ok(1)` -/
+def lenBool (_ : Bool) : Nat := 1
+/-- `RctType::consensus_encode` (ringct.rs:676-689): every arm returns what `Nu8.consensus_encode(w)` reports -/
+def lenRctType (_ : Nat) : Nat := lenUint 1
+def lenHeader (h : Header) : Nat := lenVarint h.major + lenVarint h.minor + lenVarint h.timestamp + lenBytes h.prev + lenUint 4
 def lenBlock (b : Block) : Nat := lenHeader b.hdr + lenTx b.miner + lenVec lenBytes b.hashes
 end Monero
+
+namespace Monero.Extra
+/-- the `usize` returned by `SubField::consensus_encode` (transaction.rs:872-919), arm by arm: `len += tag.consensus_encode(w)?`
+then what the payload reports (`Padding`: one per zero byte of the `for _ in 0..nbytes` loop; `PublicKey` / `Hash`: the `[u8; 32]`
+array impl, one per byte; `Vec<u8>` / `Vec<PublicKey>`: varint of the count plus the elements; `MergeMining`: tag, the one size
+byte, the depth varint, the hash). Written separately from `encSub` (which produces the bytes). -/
+def lenSub : SubField → Nat
+  | .padding n => (List.range n).foldl (fun len _ => len + lenUint 1) (lenUint 1)
+  | .txPub k => lenUint 1 + lenBytes k
+  | .nonce n => lenUint 1 + lenVec (fun _ => lenUint 1) n
+  | .mergeMining d h => lenUint 1 + lenUint 1 + lenVarint d + lenBytes h
+  | .addKeys ks => lenUint 1 + lenVec lenBytes ks
+  | .minerGate d => lenUint 1 + lenVec (fun _ => lenUint 1) d
+end Monero.Extra
